@@ -1,0 +1,412 @@
+//! Verification hooks (only compiled with `--cfg roto_verif`).
+//!
+//! These functions expose compiler artefacts that are otherwise private, for
+//! the conformance checks under /verif:
+//!
+//!  - [`mir_json`]: the MIR of a script as JSON (blocks keyed by `LabelRef`,
+//!    instructions, variables with their type trees and "needs drop" leaves),
+//!  - [`lower`], [`Lowered::eval_main`], [`Lowered::codegen`]: run the LIR
+//!    evaluator and the JIT on the *same* lowered program,
+//!  - [`lex`]: the token stream with byte spans,
+//!  - [`report_spans`]: every source location cited by a [`RotoReport`].
+//!
+//! Nothing here changes the behaviour of the crate.
+use std::fmt::Write;
+
+use crate::{
+    FileTree, Package, RotoReport, Runtime,
+    ir_printer::{IrPrinter, Printable},
+    label::LabelStore,
+    lir::{IrValue, Memory},
+    mir::{self, Instruction, ItemKind, Place, Projection, Ty, TyRef, Value, Var},
+    pipeline::{LoweredToLir, RotoError},
+    runtime::{Movability, NoCtx, OptCtx, Rt},
+    typechecker::{info::TypeInfo, types::Primitive},
+};
+
+fn esc(s: &str) -> String {
+    let mut o = String::new();
+    for c in s.chars() {
+        match c {
+            '"' => o.push_str("\\\""),
+            '\\' => o.push_str("\\\\"),
+            '\n' => o.push_str("\\n"),
+            c if (c as u32) < 0x20 => { let _ = write!(o, "\\u{:04x}", c as u32); }
+            c => o.push(c),
+        }
+    }
+    o
+}
+
+fn ty_json(ti: &TypeInfo, rt: &Rt, ty: TyRef) -> String {
+    match ti.ty_pool.get(ty).clone() {
+        Ty::Unit => r#"{"k":"unit"}"#.into(),
+        Ty::Never => r#"{"k":"never"}"#.into(),
+        Ty::Record(fields) => {
+            let fs: Vec<String> = fields
+                .iter()
+                .map(|(n, t)| format!(r#"{{"n":"{}","t":{}}}"#, esc(n.as_str()), ty_json(ti, rt, *t)))
+                .collect();
+            format!(r#"{{"k":"record","fields":[{}]}}"#, fs.join(","))
+        }
+        Ty::Enum(variants) => {
+            let vs: Vec<String> = variants
+                .iter()
+                .map(|(n, ts)| {
+                    let ts: Vec<String> = ts.iter().map(|t| ty_json(ti, rt, *t)).collect();
+                    format!(r#"{{"n":"{}","fields":[{}]}}"#, esc(n.as_str()), ts.join(","))
+                })
+                .collect();
+            format!(r#"{{"k":"enum","variants":[{}]}}"#, vs.join(","))
+        }
+        Ty::Primitive(Primitive::String) => r#"{"k":"leaf","drop":true,"n":"String"}"#.into(),
+        Ty::Primitive(p) => format!(r#"{{"k":"leaf","drop":false,"n":"{}"}}"#, p),
+        Ty::List(_) => r#"{"k":"leaf","drop":true,"n":"List"}"#.into(),
+        Ty::Runtime(id) => {
+            let t = rt.get_runtime_type(id).unwrap();
+            let d = matches!(t.movability(), Movability::CloneDrop(..));
+            format!(r#"{{"k":"leaf","drop":{},"n":"rt:{}"}}"#, d, esc(t.name().ident.as_str()))
+        }
+    }
+}
+
+fn lbl(l: &crate::label::LabelRef, p: &IrPrinter) -> String {
+    format!("{}#{:?}", l.print(p), l)
+}
+
+fn var(v: &Var, p: &IrPrinter) -> String {
+    format!("\"{}\"", esc(&v.print(p)))
+}
+
+fn place(pl: &Place, p: &IrPrinter) -> String {
+    let proj: Vec<String> = pl
+        .projection
+        .iter()
+        .map(|x| match x {
+            Projection::Field(i) => format!(r#"{{"f":"{}"}}"#, esc(i.as_str())),
+            Projection::VariantField(v, i) => format!(r#"{{"v":"{}","i":{}}}"#, esc(v.as_str()), i),
+        })
+        .collect();
+    format!(r#"{{"var":{},"proj":[{}]}}"#, var(&pl.var, p), proj.join(","))
+}
+
+fn vars(vs: &[Var], p: &IrPrinter) -> String {
+    let v: Vec<String> = vs.iter().map(|v| var(v, p)).collect();
+    format!("[{}]", v.join(","))
+}
+
+fn value(v: &Value, p: &IrPrinter) -> String {
+    match v {
+        Value::Const(..) => r#"{"k":"const"}"#.into(),
+        Value::Constant(..) => r#"{"k":"constant"}"#.into(),
+        Value::Context(_) => r#"{"k":"context"}"#.into(),
+        Value::Clone(pl) => format!(r#"{{"k":"clone","place":{}}}"#, place(pl, p)),
+        Value::Discriminant(x) => format!(r#"{{"k":"discr","var":{}}}"#, var(x, p)),
+        Value::Not(x) => format!(r#"{{"k":"un","var":{}}}"#, var(x, p)),
+        Value::Negate(x, _) => format!(r#"{{"k":"un","var":{}}}"#, var(x, p)),
+        Value::Move(x) => format!(r#"{{"k":"move","var":{}}}"#, var(x, p)),
+        Value::BinOp { left, right, .. } => {
+            format!(r#"{{"k":"bin","l":{},"r":{}}}"#, var(left, p), var(right, p))
+        }
+        Value::Call { args, func, .. } => {
+            format!(r#"{{"k":"call","f":"{}","args":{}}}"#, esc(&func.print(p)), vars(args, p))
+        }
+        Value::CallRuntime { args, func_ref, .. } => {
+            format!(r#"{{"k":"callrt","f":"{}","args":{}}}"#, func_ref, vars(args, p))
+        }
+    }
+}
+
+/// Export the MIR of a script as JSON
+pub fn mir_json<C: OptCtx>(tree: FileTree, rt: &Runtime<C>) -> Result<String, RotoReport> {
+    let parsed = tree.parse()?;
+    let crate::module::Parsed { module_tree, file_tree, spans } = parsed;
+    let (mut type_info, order) = match crate::typechecker::typecheck(&rt.rt, &module_tree) {
+        Ok(x) => x,
+        Err(e) => {
+            return Err(RotoReport {
+                files: file_tree.files,
+                errors: vec![RotoError::Type(e)],
+                spans,
+            });
+        }
+    };
+    let mut label_store = LabelStore::default();
+    let ir = mir::lower_to_mir(&module_tree, &rt.rt, &mut type_info, &mut label_store, &order);
+    let mut items = Vec::new();
+    for item in &ir.items {
+        let p = IrPrinter { type_info: &type_info, label_store: &label_store, scope: Some(item.scope) };
+        let (kind, params) = match &item.ty {
+            ItemKind::Constant { .. } => ("const", Vec::new()),
+            ItemKind::Function { parameters, .. } => ("fn", parameters.clone()),
+        };
+        let vs: Vec<String> = item
+            .variables
+            .iter()
+            .map(|(v, t)| format!(r#"{{"v":{},"t":{}}}"#, var(v, &p), ty_json(&type_info, &rt.rt, *t)))
+            .collect();
+        let mut blocks = Vec::new();
+        for b in &item.blocks {
+            let ins: Vec<String> = b
+                .instructions
+                .iter()
+                .map(|i| match i {
+                    Instruction::Jump(l) => format!(r#"{{"k":"jump","to":"{}"}}"#, esc(&lbl(l, &p))),
+                    Instruction::Switch { examinee, branches, default } => {
+                        let bs: Vec<String> = branches
+                            .iter()
+                            .map(|(i, l)| format!(r#"{{"i":{},"to":"{}"}}"#, i, esc(&lbl(l, &p))))
+                            .collect();
+                        let d = match default {
+                            Some(l) => format!("\"{}\"", esc(&lbl(l, &p))),
+                            None => "null".into(),
+                        };
+                        format!(r#"{{"k":"switch","ex":{},"br":[{}],"def":{}}}"#, var(examinee, &p), bs.join(","), d)
+                    }
+                    Instruction::Assign { to, ty, value: v } => format!(
+                        r#"{{"k":"assign","to":{},"ty":{},"val":{}}}"#,
+                        place(to, &p),
+                        ty_json(&type_info, &rt.rt, *ty),
+                        value(v, &p)
+                    ),
+                    Instruction::SetDiscriminant { to, variant, .. } => {
+                        format!(r#"{{"k":"setdiscr","to":{},"variant":"{}"}}"#, var(to, &p), esc(variant.as_str()))
+                    }
+                    Instruction::Return { var: v } => format!(r#"{{"k":"return","var":{}}}"#, var(v, &p)),
+                    Instruction::Drop { val, ty } => format!(
+                        r#"{{"k":"drop","place":{},"ty":{}}}"#,
+                        place(val, &p),
+                        ty_json(&type_info, &rt.rt, *ty)
+                    ),
+                })
+                .collect();
+            blocks.push(format!(r#"{{"label":"{}","ins":[{}]}}"#, esc(&lbl(&b.label, &p)), ins.join(",")));
+        }
+        items.push(format!(
+            r#"{{"name":"{}","kind":"{}","params":{},"vars":[{}],"blocks":[{}]}}"#,
+            esc(item.name.as_str()),
+            kind,
+            vars(&params, &p),
+            vs.join(","),
+            blocks.join(",")
+        ));
+    }
+    Ok(format!("[{}]", items.join(",")))
+}
+
+
+/// A script lowered to LIR, ready to be evaluated and/or compiled
+pub struct Lowered<'r>(LoweredToLir<'r, NoCtx>);
+
+/// A scalar value crossing the hook boundary: (type name, raw bits)
+pub type Scalar = (String, u64);
+
+/// Outcome of the LIR evaluator
+#[derive(Debug, Clone, PartialEq)]
+pub enum EvalOutcome {
+    /// The evaluator completed and returned this scalar (or nothing)
+    Value(Option<Scalar>),
+    /// The evaluator stopped with a panic
+    Panic(String),
+}
+
+/// Lower a script to LIR
+pub fn lower<'r>(
+    tree: FileTree,
+    rt: &'r Runtime<NoCtx>,
+) -> Result<Lowered<'r>, RotoReport> {
+    Ok(Lowered(
+        tree.parse()?.typecheck(rt)?.lower_to_mir().lower_to_lir(),
+    ))
+}
+
+fn to_ir(s: &Scalar) -> IrValue {
+    let b = s.1;
+    match s.0.as_str() {
+        "bool" => IrValue::Bool(b != 0),
+        "u8" => IrValue::U8(b as u8),
+        "u16" => IrValue::U16(b as u16),
+        "u32" => IrValue::U32(b as u32),
+        "u64" => IrValue::U64(b),
+        "i8" => IrValue::I8(b as u8 as i8),
+        "i16" => IrValue::I16(b as u16 as i16),
+        "i32" => IrValue::I32(b as u32 as i32),
+        "i64" => IrValue::I64(b as i64),
+        "f32" => IrValue::F32(f32::from_bits(b as u32)),
+        "f64" => IrValue::F64(f64::from_bits(b)),
+        "char" => IrValue::Char(char::from_u32(b as u32).unwrap()),
+        "Asn" => IrValue::Asn(inetnum::asn::Asn::from_u32(b as u32)),
+        t => panic!("verif: unsupported scalar type {t}"),
+    }
+}
+
+fn from_ir(v: &IrValue) -> Scalar {
+    match v {
+        IrValue::Bool(x) => ("bool".into(), *x as u64),
+        IrValue::U8(x) => ("u8".into(), *x as u64),
+        IrValue::U16(x) => ("u16".into(), *x as u64),
+        IrValue::U32(x) => ("u32".into(), *x as u64),
+        IrValue::U64(x) => ("u64".into(), *x),
+        IrValue::I8(x) => ("i8".into(), *x as u8 as u64),
+        IrValue::I16(x) => ("i16".into(), *x as u16 as u64),
+        IrValue::I32(x) => ("i32".into(), *x as u32 as u64),
+        IrValue::I64(x) => ("i64".into(), *x as u64),
+        IrValue::F32(x) => ("f32".into(), x.to_bits() as u64),
+        IrValue::F64(x) => ("f64".into(), x.to_bits()),
+        IrValue::Char(x) => ("char".into(), *x as u32 as u64),
+        IrValue::Asn(x) => ("Asn".into(), x.into_u32() as u64),
+        IrValue::Pointer(x) => ("Pointer".into(), *x as u64),
+    }
+}
+
+impl<'r> Lowered<'r> {
+    /// Run `pkg.main` in the LIR evaluator with scalar arguments.
+    ///
+    /// `main` must return a scalar (or nothing). A panic of the evaluator is
+    /// caught and reported as [`EvalOutcome::Panic`].
+    pub fn eval_main(&self, args: &[Scalar]) -> EvalOutcome {
+        let args: Vec<IrValue> = args.iter().map(to_ir).collect();
+        let r = std::panic::catch_unwind(std::panic::AssertUnwindSafe(|| {
+            let mut mem = Memory::new();
+            let ctx = IrValue::Pointer(mem.allocate(0));
+            self.0.eval(&mut mem, ctx, args)
+        }));
+        match r {
+            Ok(v) => EvalOutcome::Value(v.as_ref().map(from_ir)),
+            Err(e) => {
+                let msg = if let Some(s) = e.downcast_ref::<&str>() {
+                    s.to_string()
+                } else if let Some(s) = e.downcast_ref::<String>() {
+                    s.clone()
+                } else {
+                    "<panic>".to_string()
+                };
+                EvalOutcome::Panic(msg)
+            }
+        }
+    }
+
+    /// Generate machine code from this very lowered program
+    pub fn codegen(self) -> Package<NoCtx> {
+        self.0.codegen()
+    }
+}
+
+/// Lex a source text: (token kind, token text, start byte, end byte).
+///
+/// Lexing errors are reported with kind `"<error>"`. The f-string body is
+/// not tokenised (the parser drives that part of the lexer).
+pub fn lex(src: &str) -> Vec<(String, String, usize, usize)> {
+    let mut lexer = crate::parser::lexer::Lexer::new(src);
+    let mut out = Vec::new();
+    while let Some((tok, span)) = lexer.next() {
+        let kind = match &tok {
+            Ok(t) => {
+                let d = format!("{t:?}");
+                d.split(['(', ' ']).next().unwrap_or("").to_string()
+            }
+            Err(()) => "<error>".to_string(),
+        };
+        let text = src.get(span.clone()).unwrap_or("<not on char boundary>");
+        out.push((kind, text.to_string(), span.start, span.end));
+        if tok.is_err() || matches!(tok, Ok(crate::parser::token::Token::FStringStart)) {
+            break;
+        }
+    }
+    out
+}
+
+/// All locations cited by a report: (file index, file length in bytes,
+/// start byte, end byte, on char boundaries?)
+pub fn report_spans(
+    report: &RotoReport,
+) -> Vec<(usize, usize, usize, usize, bool)> {
+    let mut spans = Vec::new();
+    for e in &report.errors {
+        match e {
+            RotoError::Parse(p) => {
+                spans.push(p.location);
+                for h in &p.hints {
+                    spans.push(h.location);
+                }
+            }
+            RotoError::Type(t) => {
+                spans.push(report.spans.get(t.location));
+                for l in &t.labels {
+                    spans.push(report.spans.get(l.id));
+                }
+            }
+            _ => {}
+        }
+    }
+    spans
+        .into_iter()
+        .map(|s| {
+            let (len, ok) = match report.files.get(s.file) {
+                Some(f) => (
+                    f.contents.len(),
+                    s.start <= s.end
+                        && f.contents.is_char_boundary(s.start)
+                        && f.contents.is_char_boundary(s.end)
+                        && s.end <= f.contents.len(),
+                ),
+                None => (0, false),
+            };
+            (s.file, len, s.start, s.end, ok)
+        })
+        .collect()
+}
+
+/// Kinds of the errors in a report ("read", "parse", "type", ...)
+pub fn report_kinds(report: &RotoReport) -> Vec<&'static str> {
+    report
+        .errors
+        .iter()
+        .map(|e| match e {
+            RotoError::Read(..) => "read",
+            RotoError::Parse(..) => "parse",
+            RotoError::Type(..) => "type",
+            RotoError::TestsFailed() => "tests_failed",
+            RotoError::CouldNotRetrieveFunction(..) => "retrieve",
+            RotoError::Custom(..) => "custom",
+        })
+        .collect()
+}
+
+/// Schedule points and instrumentation events of the list implementation.
+///
+/// `src/value/list.rs` calls [`sched::point`] before every lock acquisition,
+/// between looking up an element pointer and using it, and when the storage of
+/// a list is (re)allocated or freed. Without an installed hook this does
+/// nothing. The conformance harness installs a hook that (a) records the
+/// events and (b) blocks the calling thread until a controller grants the
+/// step, so that a schedule produced by the TLA+ model can be imposed on the
+/// real code.
+pub mod sched {
+    use std::sync::atomic::{AtomicBool, Ordering};
+    use std::sync::{Arc, RwLock};
+
+    /// kind, a, b
+    pub type Hook = dyn Fn(&'static str, usize, usize) + Send + Sync;
+
+    static ENABLED: AtomicBool = AtomicBool::new(false);
+    static HOOK: RwLock<Option<Arc<Hook>>> = RwLock::new(None);
+
+    /// Install (or remove) the hook
+    pub fn set_hook(h: Option<Arc<Hook>>) {
+        ENABLED.store(h.is_some(), Ordering::SeqCst);
+        *HOOK.write().unwrap() = h;
+    }
+
+    /// Called by the list implementation
+    #[inline]
+    pub fn point(kind: &'static str, a: usize, b: usize) {
+        if !ENABLED.load(Ordering::SeqCst) {
+            return;
+        }
+        let h = HOOK.read().unwrap().clone();
+        if let Some(h) = h {
+            h(kind, a, b)
+        }
+    }
+}
